@@ -72,6 +72,7 @@ type tr struct {
 	imports map[string]string // local name -> path
 	dot     map[*ast.Ident]string
 	depth   int
+	usedImp map[string]bool // paths referred to through a qualified identifier
 }
 
 func (t *tr) node(n ast.Node) {
@@ -202,6 +203,7 @@ func (t *tr) expr(e ast.Expr) *N {
 	case *ast.SelectorExpr:
 		if id, ok := e.X.(*ast.Ident); ok && id.Obj == nil {
 			if path, ok := t.imports[id.Name]; ok {
+				t.usedImp[path] = true
 				return recipe.Qual(path, e.Sel.Name)
 			}
 		}
@@ -368,7 +370,9 @@ func (t *tr) results(s *N, r *ast.FieldList) *N {
 	if r == nil || len(r.List) == 0 {
 		return s
 	}
-	if len(r.List) == 1 && len(r.List[0].Names) == 0 {
+	if len(r.List) == 1 && len(r.List[0].Names) == 0 && !r.Opening.IsValid() {
+		// a single unnamed result written without parentheses; a parenthesised one keeps its
+		// parentheses (the parser is more lenient inside them: `func() (A[0])`)
 		return s.Add(t.expr(r.List[0].Type))
 	}
 	ps := t.params(r)
@@ -789,7 +793,7 @@ func File(af *ast.File, o Options, siblings map[string]bool) (fr *recipe.File, e
 		}
 	}()
 	fr = &recipe.File{Ctor: "NewFile", Args: []recipe.Text{recipe.Text(af.Name.Name)}}
-	t := &tr{o: o, imports: map[string]string{}, dot: map[*ast.Ident]string{}}
+	t := &tr{o: o, imports: map[string]string{}, dot: map[*ast.Ident]string{}, usedImp: map[string]bool{}}
 	op := func(name string, args ...string) {
 		fo := recipe.FileOp{Op: name}
 		for _, a := range args {
@@ -807,6 +811,9 @@ func File(af *ast.File, o Options, siblings map[string]bool) (fr *recipe.File, e
 		for _, sp := range gd.Specs {
 			is := sp.(*ast.ImportSpec)
 			path, _ := strconv.Unquote(is.Path.Value)
+			if path == "" {
+				skip("empty-import-path") // for a NewFile file "" is the local path
+			}
 			if seen[path] {
 				skip("duplicate-import-path %s", path)
 			}
@@ -838,6 +845,9 @@ func File(af *ast.File, o Options, siblings map[string]bool) (fr *recipe.File, e
 				if n == "" {
 					skip("unknown-package-name %s", path)
 				}
+				if _, dup := t.imports[n]; dup {
+					skip("duplicate-import-name %s", n) // two imports under one name: does not compile, has no DSL form
+				}
 				t.imports[n] = path
 				op("ImportName", path, n)
 			case is.Name.Name == "_":
@@ -846,6 +856,9 @@ func File(af *ast.File, o Options, siblings map[string]bool) (fr *recipe.File, e
 				dots = append(dots, path)
 				op("ImportAlias", path, ".")
 			default:
+				if _, dup := t.imports[is.Name.Name]; dup {
+					skip("duplicate-import-name %s", is.Name.Name)
+				}
 				t.imports[is.Name.Name] = path
 				op("ImportAlias", path, is.Name.Name)
 			}
@@ -920,6 +933,13 @@ func File(af *ast.File, o Options, siblings map[string]bool) (fr *recipe.File, e
 		fr.Body = append(fr.Body, t.decl(d))
 		if o.Stats != nil {
 			o.Stats.Decls++
+		}
+	}
+	// The DSL imports exactly what is referenced (C04), so a file with an import that nothing
+	// refers to — which does not compile — has no DSL form.
+	for name, path := range t.imports {
+		if path != "C" && !t.usedImp[path] {
+			skip("unused-import %s (%s)", path, name)
 		}
 	}
 	return fr, nil
